@@ -47,6 +47,53 @@ theorem stale_replaced (past : List Op) (c n v n' v' l : Nat) (hc : c < 16) (hn 
   · simp [justified14, hj, e, lastMsb]
   · simp [justified14, hj, e, lastMsb, List.foldl_append, msbStep]
 
+/-! ### data independence (justifies the value abstraction of the correspondence's state-space exploration) -/
+
+/-- C08, data independence: the scanner looks at status bytes and controller numbers only.  Relabelling the value
+    bytes of every Control Change of the history and of the input by ANY function `f` relabels the two halves of
+    the reported value by `f` and changes nothing else (in particular not WHETHER something is reported). -/
+theorem data_independent (f : Nat → Nat) (past : List Op) (hp : ∀ op ∈ past, op.Valid) (m : Bytes) (hm : m.Valid) :
+    justified14 (past.map (relabelOp f)) (relabelB f m)
+      = (justified14 past m).map fun r => { r with value := 128 * f (r.value / 128) + f (r.value % 128) } := by
+  unfold justified14
+  by_cases h : 176 ≤ m.status ∧ m.status < 192 ∧ 32 ≤ m.d1 ∧ m.d1 < 64
+  · have hr : relabelB f m = ⟨m.status, m.d1, f m.d2⟩ := by simp [relabelB, h.1, h.2.1]
+    have hc : m.status - 176 < 16 := by omega
+    have hl := lastMsb_relabel f (m.status - 176) hc past none
+    simp only [Option.map_none] at hl
+    simp only [hr, h, and_self, if_true, lastMsb, hl]
+    cases hq : past.foldl (msbStep (m.status - 176)) none with
+    | none => simp
+    | some p =>
+      have hlt := lastMsb_lt (m.status - 176) past hp none (by simp) p hq
+      have hd2 := hm.2.2.2
+      obtain ⟨n, v⟩ := p
+      simp only [Option.map_some]
+      by_cases hn : n = m.d1 - 32
+      · have e1 : (128 * v + m.d2) / 128 = v := by omega
+        have e2 : (128 * v + m.d2) % 128 = m.d2 := by omega
+        simp [hn, e1, e2]
+      · simp [hn]
+  · have hr : ¬ (176 ≤ (relabelB f m).status ∧ (relabelB f m).status < 192 ∧ 32 ≤ (relabelB f m).d1 ∧ (relabelB f m).d1 < 64) := by
+      unfold relabelB; split <;> simpa using h
+    simp [h, hr]
+
+
+
+/-- the value abstraction used by the state-space exploration of the correspondence is sound for the scanner
+    itself: after ANY relabelled history the scanner, fed the relabelled input, reports the relabelled message. -/
+theorem scanner_data_independent (f : Nat → Nat) (hf : ∀ v, v < 128 → f v < 128)
+    (past : List Op) (hp : ∀ op ∈ past, op.Valid) (m : Bytes) (hm : m.Valid) :
+    ∃ s s', ccRun CCScanner.new (past.map (relabelOp f)) = .ok (s, expected14 [] (past.map (relabelOp f))) ∧
+      s.feed rawImpl (relabelB f m) = .ok (s', (justified14 past m).map fun r =>
+        { r with value := 128 * f (r.value / 128) + f (r.value % 128) }) := by
+  rw [← data_independent f past hp m hm]
+  exact exact _ (relabel_valid f hf past hp) _ (relabelB_valid f hf m hm)
+
+/-! non-vacuity: collapsing every value to `v % 2` -/
+example : justified14 ([.feed ⟨181, 2, 8⟩, .feed ⟨144, 60, 100⟩].map (relabelOp (· % 2))) (relabelB (· % 2) ⟨181, 34, 33⟩)
+    = some ⟨5, 2, 1⟩ := by decide
+
 /-! non-vacuity -/
 example : justified14 [.feed ⟨181, 2, 8⟩, .feed ⟨144, 60, 100⟩] ⟨181, 34, 33⟩ = some ⟨5, 2, 1057⟩ := by decide
 
